@@ -264,6 +264,16 @@ const TB_SAMPLES: &[TbSample] = &[
                quadratic_ok: &[], const_conds: &[] },
     TbSample { name: "array-slot-raised-later", src: "template T() {\n signal input a; signal input b; signal output out;\n var x[2] = [a, a];\n x[1] = a * b;\n x[0] = 1;\n out <-- x[1] * b;\n}\n",
                quadratic_ok: &[], const_conds: &[] },
+    TbSample { name: "component-port-cubed", src: "template T() {\n signal input in; signal output out;\n component sq = Square();\n sq.in <== in;\n out <-- sq.out * sq.out * sq.out;\n}\n",
+               quadratic_ok: &[], const_conds: &[] },
+    TbSample { name: "component-port-squared", src: "template T() {\n signal input in; signal output out;\n component sq = Square();\n sq.in <== in;\n out <-- sq.out * sq.out;\n}\n",
+               quadratic_ok: &["out"], const_conds: &[] },
+    TbSample { name: "component-array-port-cubed", src: "template T() {\n signal input in; signal output out;\n component c[2];\n c[0] = Square(); c[1] = Square();\n c[0].in <== in; c[1].in <== in;\n out <-- c[0].out * c[1].out * in;\n}\n",
+               quadratic_ok: &[], const_conds: &[] },
+    TbSample { name: "signal-times-signal-times-param", src: "template T(n) {\n signal input a; signal input b; signal output out; signal output out2;\n out <-- a * b * n;\n out2 <-- a * b * a;\n}\n",
+               quadratic_ok: &["out"], const_conds: &[] },
+    TbSample { name: "intermediate-signal-product", src: "template T() {\n signal input a; signal output out; signal s;\n s <== a * a;\n out <-- s * s * s;\n}\n",
+               quadratic_ok: &[], const_conds: &[] },
     TbSample { name: "constant-overwritten-in-loop", src: "template T(n) {\n signal input in; signal output out;\n var c = 5;\n for (var i = 0; i < n; i++) { c = c * 2; }\n var r = 0;\n if (c == 5) { r = 1; }\n out <== in * r;\n}\n",
                quadratic_ok: &[], const_conds: &[] },
 ];
@@ -278,8 +288,8 @@ fn timebox_bounded(tier: &str) {
     let mut samples: Vec<String> = vec![];
     let mut claims_seen = 0u64;
     for smp in TB_SAMPLES {
-        let mut budgets: Vec<isize> = (1..=max_budget).collect();
-        budgets.push(-1);
+        let mut budgets: Vec<isize> = vec![-1];
+        budgets.extend(1..=max_budget);
         for b in budgets {
             evals += 1; nontrivial += 1;
             let r = catch_unwind(AssertUnwindSafe(|| {
@@ -331,10 +341,12 @@ fn timebox_bounded(tier: &str) {
             }
             if samples.len() < 6 && (b == 3 || b == -1) && samples.len() < 6 { samples.push(jstr(&format!("{} @ budget {}", smp.name, b))); }
             if let Some((cl, what)) = bad {
-                let ob = format!("timebox|Cfg::propagate|bounded|{}", cl);
+                // a wrong claim at the fixpoint is a C07 / C06 matter as well; at an intermediate cut point it is C20's
+                let ob = if b < 0 { format!("timebox|Cfg::propagate|bounded|{}-at-fixpoint", cl) } else { format!("timebox|Cfg::propagate|bounded|{}", cl) };
+                let props = if b < 0 { if cl == "degree" { "[\"C07\",\"C20\"]" } else if cl == "value" { "[\"C06\",\"C20\"]" } else { "[\"C20\",\"C01\"]" } } else { "[\"C20\"]" };
                 if seen_ob.insert(ob.clone()) {
-                    viol.push(format!("{{\"unit\":\"timebox\",\"fn\":\"Cfg::propagate_values/propagate_degrees\",\"obligation\":{},\"input\":{},\"what\":{},\"replay\":\"replay_parser bounded-timebox\"}}",
-                        jstr(&ob), jstr(&format!("{} stopped after {} pass(es)", smp.name, b)), jstr(&format!("sample `{}` with propagation stopped after {} pass(es): {} — source:\n{}", smp.name, b, what, smp.src))));
+                    viol.push(format!("{{\"unit\":\"timebox\",\"fn\":\"Cfg::propagate_values/propagate_degrees\",\"props\":{},\"obligation\":{},\"input\":{},\"what\":{},\"replay\":\"replay_parser bounded-timebox\"}}",
+                        props, jstr(&ob), jstr(&format!("{} stopped after {} pass(es)", smp.name, b)), jstr(&format!("sample `{}` with propagation stopped after {} pass(es): {} — source:\n{}", smp.name, b, what, smp.src))));
                 }
             }
         }
@@ -342,7 +354,7 @@ fn timebox_bounded(tier: &str) {
     println!("{{\"unit\":\"timebox\",\"evaluations\":{},\"distinct_nontrivial\":{},\"exhaustive\":false,\"rule\":{},\"bound\":{},\"samples\":[{}],\"violations\":[{}]}}",
         evals, nontrivial,
         jstr("the real parse_definition + into_cfg + into_ssa with value and degree propagation stopped after b passes (pass budget hook = the time box expiring there), for every b up to the bound and for the fixpoint: the run completes, and every `at most quadratic` annotation on a `<--` right-hand side and every `always true/false` annotation on a branch condition is within the sample's hand-written ground truth"),
-        jstr(&format!("{} hand-labelled templates (loop accumulators whose degree grows, uses before updates, nested loops, branches, counters, array slots overwritten) x pass budgets 1..{} and unlimited; {} claims observed", TB_SAMPLES.len(), max_budget, claims_seen)),
+        jstr(&format!("{} hand-labelled templates (loop accumulators whose degree grows, uses before updates, nested loops, branches, counters, array slots overwritten, component ports and intermediate signals in products) x pass budgets 1..{} and unlimited; {} claims observed", TB_SAMPLES.len(), max_budget, claims_seen)),
         samples.join(","), viol.join(","));
 }
 
